@@ -55,7 +55,8 @@ REGISTRY = {
         "assumptions": ["level names are strings"],
     },
     "C05": _design_prop(OD2.oracle_c05),
-    "C18": dict(_design_prop(OD2.oracle_c18, quick=50), correspondence=[i7_layout.corr_sharing]),
+    "C18": dict(_design_prop(OD2.oracle_c18, quick=30), correspondence=[i7_layout.corr_sharing],
+                oracle=[OD2.oracle_c18, OD2.oracle_c18_blocks]),
     "C19": _design_prop(OD2.oracle_c19),
     "C22": _design_prop(OD2.oracle_c22),
     "C14": dict(_design_prop(OD2.oracle_c14, quick=40), correspondence=[i7_layout.corr_layout]),
